@@ -341,10 +341,27 @@ async def client_script(link, log):
         log.append(('run-failed',))
 
 
+def run_victim_rclient(strict: bool, scenario: str,
+                       inject: Optional[Tuple[int, bytes]],
+                       inject2: Optional[Tuple[int, bytes]] = None,
+                       rekey_at: Optional[str] = None):
+    """The victim is a reverse-direction client (what listen_reverse()
+    creates): same protocol role, different life cycle of the object"""
+
+    return run_victim_client(strict, scenario, inject, inject2, rekey_at,
+                             reverse=True)
+
+
+def victim_fn(victim: str):
+    return {'server': run_victim_server, 'client': run_victim_client,
+            'rclient': run_victim_rclient}[victim]
+
+
 def run_victim_client(strict: bool, scenario: str,
                       inject: Optional[Tuple[int, bytes]],
                       inject2: Optional[Tuple[int, bytes]] = None,
-                      rekey_at: Optional[str] = None):
+                      rekey_at: Optional[str] = None,
+                      reverse: bool = False):
     log: List[Any] = []
     hk = _HK.setdefault('ed', RefKey('ed25519'))
     ref = RefPeer('server', strict=strict, host_key=hk)
@@ -352,7 +369,7 @@ def run_victim_client(strict: bool, scenario: str,
     conn.auth_policy = lambda user, service, method, r: \
         scenario == 'ok' and method == b'password'
     link = RefLink(ref, {'client_factory': lambda: LogClient(log),
-                         'password': 'pw'})
+                         'password': 'pw'}, reverse=reverse)
     info: Dict[str, Any] = {'inj_seq': None}
     count = {'n': 0}
     state = {'exec': False}
@@ -464,7 +481,7 @@ _BASE: Dict[Any, Any] = {}
 def baseline(victim: str, strict: bool, scenario: str):
     key = (victim, strict, scenario)
     if key not in _BASE:
-        fn = run_victim_server if victim == 'server' else run_victim_client
+        fn = victim_fn(victim)
         log, info = fn(strict, scenario, None)
         if info['ref_error'] or info['loop_errors']:
             raise Violation('baseline', 'untampered dialogue failed: %r %r' %
@@ -599,7 +616,7 @@ def run_grid(case) -> CaseResult:
 
     base_log, base_info = baseline(victim, case['strict'], case['scenario'])
     msg = shaped(case['type'], case['shape'])
-    fn = run_victim_server if victim == 'server' else run_victim_client
+    fn = victim_fn(victim)
     inj2 = None
 
     if case.get('second'):
@@ -642,6 +659,21 @@ def grid(tier: str):
                             yield {'victim': victim, 'strict': strict,
                                    'scenario': scenario, 'pos': pos,
                                    'type': t, 'shape': shape}
+
+
+def reverse_grid(tier: str):
+    """The same grid against a reverse-direction client (the object
+    asyncssh.listen_reverse() creates: acceptor instead of a waiter)"""
+
+    types = TYPES if tier == 'thorough' else QUICK_TYPES
+    for strict in (True, False):
+        for scenario in ('ok', 'fail'):
+            for pos in range(9):
+                for t in types:
+                    for shape in ((0, 3) if tier == 'thorough' else (0,)):
+                        yield {'victim': 'rclient', 'strict': strict,
+                               'scenario': scenario, 'pos': pos,
+                               'type': t, 'shape': shape}
 
 
 def pairs_strategy(tier: str):
@@ -789,7 +821,7 @@ def run_rekex(case) -> CaseResult:
 
     victim, strict, scenario = case['victim'], case['strict'], \
         case['scenario']
-    fn = run_victim_server if victim == 'server' else run_victim_client
+    fn = victim_fn(victim)
     base_log, _ = baseline(victim, strict, scenario)
     log, info = fn(strict, scenario, None, rekey_at=case['at'])
     labels = ['victim:' + victim, 'at:' + case['at'],
@@ -846,6 +878,10 @@ def _required():
 FAMILIES = [
     Family('grid', run_grid, enumerate=grid, exhaustive=True,
            required={'all': _required()}, case_timeout=120),
+    Family('reverse-client', run_grid, enumerate=reverse_grid,
+           exhaustive=True,
+           required={'all': ['victim:rclient', 'outcome:A', 'outcome:B',
+                             'group:auth']}, case_timeout=120),
     Family('blind', run_blind, enumerate=blind_cases, exhaustive=True,
            case_timeout=120),
     Family('pairs', run_grid, strategy=pairs_strategy,
